@@ -7,6 +7,9 @@ var commonAssumptions = []string{
 }
 
 var props = map[string]propMeta{
+	"C12": {Level: "model_checking", QuickS: 200, ThoroughS: 1800,
+		Rule: "every append history of <= 4 (thorough 6) day blocks over 7 blocks (same date again, same entries in another order, empty day, negative quantities, repeated food, note) x 2 books; on every edge H -> H.b the concatenation law (8 per-day commands, byte-wise) and the element-wise-sum law (5 period commands, parsed row maps) are checked on the real program. A case is non-trivial when the history before the appended block is non-empty.",
+		Assumptions: commonAssumptions},
 	"C07": {Level: "model_checking", QuickS: 200, ThoroughS: 1800,
 		Rule: "2 books (nested recipe, empty recipe, repeated ingredient, zero coefficient) x every log of two days (<= 2+1 entries quick, <= 3+2 thorough, over 5 foods incl. an undefined food and a directly logged element, 3 dyadic quantities; second day on a later or on the same date) x period {none, one day}; per input ~20 commands are run and the relations of the property are checked between their parsed outputs in exact decimal arithmetic. A case is non-trivial when the log has at least two entries.",
 		Assumptions: commonAssumptions},
